@@ -155,6 +155,29 @@ def drive(s, su, seed, scale, stats, notes, miri=False):
     x = c1["creq"][:sz.noe] + c1["cresp"][sz.noe:]
     if look(s.de("cresp", x, out="rf2"), "decode reflected credential response").ok:
         look(s.cmd("clogin_finish", state="al.cl", pw=b"pw-one", resp="rf2", out="t5"), "clogin_finish reflected element")
+    def feed(step):
+        """use the decoded object "mut" in the protocol step it belongs to"""
+        if step == "creg_finish":
+            look(s.cmd("creg_finish", rng=rng, state="ag.cs", pw=b"pw-one", resp="mut", out="t2"), step)
+        elif step == "slogin_start":
+            look(s.cmd("slogin_start", rng=rng, setup="aS", file="ag.file", req="mut", cred=b"cred-one", out_state="t3", out_msg="t4"), step)
+        elif step == "slogin_start_file":
+            look(s.cmd("slogin_start", rng=rng, setup="aS", file="mut", req="al.cq", cred=b"cred-one", out_state="t3", out_msg="t4"), step)
+        elif step == "clogin_finish":
+            look(s.cmd("clogin_finish", state="al.cl", pw=b"pw-one", resp="mut", out="t5"), step)
+        elif step == "slogin_finish":
+            look(s.cmd("slogin_finish", state="al.sl", fin="mut"), step)
+        elif step == "sreg_finish":
+            look(s.cmd("sreg_finish", upload="mut", out="t6"), step)
+        elif step == "creg_finish_state":
+            look(s.cmd("creg_finish", rng=rng, state="mut", pw=b"pw-one", resp="ag.rr", out="t2"), step)
+        elif step == "clogin_finish_state":
+            look(s.cmd("clogin_finish", state="mut", pw=b"pw-one", resp="al.cr", out="t5"), step)
+        elif step == "slogin_finish_state":
+            look(s.cmd("slogin_finish", state="mut", fin="al.cf"), step)
+        elif step == "setup_use":
+            look(s.cmd("sreg_start", setup="mut", req="ag.rq", cred=b"c", out="t1"), step)
+            look(s.cmd("slogin_start", rng=rng, setup="mut", file="ag.file", req="al.cq", cred=b"cred-one", out_state="t3", out_msg="t4"), step)
     # mutated-but-decodable messages into the steps
     nm = max(10, int(60 * scale))
     for i in range(nm):
@@ -172,27 +195,35 @@ def drive(s, su, seed, scale, stats, notes, miri=False):
             if not d.ok:
                 continue
             stats["mutants_decoded"] += 1
-            if step == "creg_finish":
-                look(s.cmd("creg_finish", rng=rng, state="ag.cs", pw=b"pw-one", resp="mut", out="t2"), step)
-            elif step == "slogin_start":
-                look(s.cmd("slogin_start", rng=rng, setup="aS", file="ag.file", req="mut", cred=b"cred-one", out_state="t3", out_msg="t4"), step)
-            elif step == "slogin_start_file":
-                look(s.cmd("slogin_start", rng=rng, setup="aS", file="mut", req="al.cq", cred=b"cred-one", out_state="t3", out_msg="t4"), step)
-            elif step == "clogin_finish":
-                look(s.cmd("clogin_finish", state="al.cl", pw=b"pw-one", resp="mut", out="t5"), step)
-            elif step == "slogin_finish":
-                look(s.cmd("slogin_finish", state="al.sl", fin="mut"), step)
-            elif step == "sreg_finish":
-                look(s.cmd("sreg_finish", upload="mut", out="t6"), step)
-            elif step == "creg_finish_state":
-                look(s.cmd("creg_finish", rng=rng, state="mut", pw=b"pw-one", resp="ag.rr", out="t2"), step)
-            elif step == "clogin_finish_state":
-                look(s.cmd("clogin_finish", state="mut", pw=b"pw-one", resp="al.cr", out="t5"), step)
-            elif step == "slogin_finish_state":
-                look(s.cmd("slogin_finish", state="mut", fin="al.cf"), step)
-            elif step == "setup_use":
-                look(s.cmd("sreg_start", setup="mut", req="ag.rq", cred=b"c", out="t1"), step)
-                look(s.cmd("slogin_start", rng=rng, setup="mut", file="ag.file", req="al.cq", cred=b"cred-one", out_state="t3", out_msg="t4"), step)
+            feed(step)
+    # the serde forms carry structure the native forms do not (enum variant tags, sequence lengths): every small-integer byte
+    # of the bincode form set to 0,1,2,3,255 and the envelope-mode name exchanged in the JSON form; whatever still decodes is used
+    HND = {"rresp": "ag.rr", "creq": "al.cq", "file": "ag.file", "cresp": "al.cr", "cfin": "al.cf", "rupl": "ag.up", "creg": "ag.cs", "clogin": "al.cl",
+           "slogin": "al.sl", "setup": "aS"}
+    for kind, step in (("rresp", "creg_finish"), ("creq", "slogin_start"), ("file", "slogin_start_file"), ("cresp", "clogin_finish"), ("cfin", "slogin_finish"),
+                       ("rupl", "sreg_finish"), ("creg", "creg_finish_state"), ("clogin", "clogin_finish_state"), ("slogin", "slogin_finish_state"), ("setup", "setup_use")):
+        e = s.ser(HND[kind], "bincode")
+        if e.ok:
+            bv = bytes.fromhex(e.data)
+            offs = [o for o in range(len(bv)) if bv[o] <= 2 and (o < 16 or bv[max(0, o - 3):o + 4].count(0) >= 3)]
+            for o in offs[:48]:
+                for val in (0, 1, 2, 3, 255):
+                    if val == bv[o]:
+                        continue
+                    d = look(s.de(kind, bv[:o] + bytes([val]) + bv[o + 1:], codec="bincode", out="mut"), "decode %s (bincode, byte %d := %d)" % (kind, o, val))
+                    stats["serde_struct_mutants"] = stats.get("serde_struct_mutants", 0) + 1
+                    if d.ok:
+                        stats["mutants_decoded"] += 1
+                        feed(step)
+        e = s.ser(HND[kind], "json")
+        if e.ok:
+            for a_, b_ in (("Internal", "Zero"), ("Zero", "Internal"), ("Internal", "internal"), ("\"Internal\"", "1"), ("\"Internal\"", "0")):
+                if a_ in e.data:
+                    d = look(s.de(kind, e.data.replace(a_, b_), codec="json", out="mut"), "decode %s (json, %s -> %s)" % (kind, a_, b_))
+                    stats["serde_struct_mutants"] = stats.get("serde_struct_mutants", 0) + 1
+                    if d.ok:
+                        stats["mutants_decoded"] += 1
+                        feed(step)
     # ---------------------------------------------------------------- (c) the length grid
     def blob(L, ch):
         return bytes([ch]) * L
